@@ -58,6 +58,10 @@ type Step struct {
 
 	D time.Duration `json:"d,omitempty"` // advance
 
+	// W-sys
+	Req     *ReqSpec `json:"req,omitempty"`
+	NewSpec *SysSpec `json:"new_spec,omitempty"`
+
 	// crash / fault / concurrency fields are added by the worlds that use them
 	Image   string `json:"image,omitempty"`    // crash: kill | powerloss
 	ImgSeed int64  `json:"img_seed,omitempty"` // power-loss draw
